@@ -67,6 +67,7 @@ class Contract:
         self.loops = kw.pop("loops", {})
         self.props = kw.pop("props", [])
         self.is_property = kw.pop("is_property", False)
+        self.value = kw.pop("value", None)          # pure getter: spec expression of `self` that equals the result (usable inside specs / comprehensions)
         self.defaults = kw.pop("defaults", {})      # param -> python default ('None')
         self.trusted = kw.pop("trusted", False)     # contract assumed, body not verified
         self.why_trusted = kw.pop("why_trusted", "")
@@ -109,13 +110,14 @@ def specfn(fn_src):
 
 
 class Lemma:
-    def __init__(self, name, vars, hyps, goal, props=(), induct=None, note=""):
+    def __init__(self, name, vars, hyps, goal, props=(), induct=None, note="", expect_refuted=False):
         self.name, self.vars, self.hyps, self.goal = name, vars, hyps, goal
         self.props, self.induct, self.note = list(props), induct, note
+        self.expect_refuted = expect_refuted     # the statement is expected NOT to follow (documents a known finding formally)
 
 
-def lemma(name, vars, goal, hyps=(), props=(), induct=None, note=""):
-    LEMMAS[name] = Lemma(name, vars, list(hyps), goal, props, induct, note)
+def lemma(name, vars, goal, hyps=(), props=(), induct=None, note="", expect_refuted=False):
+    LEMMAS[name] = Lemma(name, vars, list(hyps), goal, props, induct, note, expect_refuted)
 
 
 def external(name):
